@@ -95,6 +95,42 @@ def breaking_variants(root=None):
     return out
 
 
+def catalogue_variants(root=None):
+    """(id, expected properties, description, overlay or None) for the replacement catalogue."""
+    from .catalogue import CATALOGUE
+
+    base = current_sources(root)
+    out = []
+    for vid, props, path, repls, desc in CATALOGUE:
+        text = base.get(path)
+        ok = text is not None
+        if ok:
+            for old, new, which in repls:
+                if old not in text:
+                    ok = False
+                    break
+                if which == "all":
+                    text = text.replace(old, new)
+                else:
+                    parts = text.split(old)
+                    if len(parts) - 1 <= which:
+                        ok = False
+                        break
+                    text = old.join(parts[: which + 1]) + new + old.join(parts[which + 1 :])
+        if ok:
+            try:
+                ast.parse(text)
+            except SyntaxError:
+                ok = False
+        if not ok:
+            out.append((vid, props, desc, None))
+            continue
+        files = dict(base)
+        files[path] = text
+        out.append((vid, props, desc, overlay_of(files)))
+    return out
+
+
 class _Renamer(ast.NodeTransformer):
     """Rename every local variable of every function (neutral variant)."""
 
@@ -180,6 +216,24 @@ def audit_property(prop, root=None):
             res["detected_variants"].append("%s -> %s" % (vid, ",".join(rules)))
         else:
             res["missed"].append("%s (%s) %s" % (vid, title[:60], ",".join(rules)))
+    for vid, props, desc, overlay in catalogue_variants(root):
+        if prop not in props:
+            continue
+        if overlay is None:
+            res["skipped"].append("%s (the edited text is not in the current tree)" % vid)
+            continue
+        res["breaking"] += 1
+        try:
+            run, mod = check_mod.analyse(prop, "quick", root, overlay, None)
+            hit = bool(run.violations())
+            rules = sorted(set(o.rule for o in run.violations()))
+        except sa_model.AnalysisError as err:
+            hit, rules = False, ["ANALYSIS-ERROR: %s" % str(err)[:80]]
+        if hit:
+            res["detected"] += 1
+            res["detected_variants"].append("%s -> %s" % (vid, ",".join(rules)))
+        else:
+            res["missed"].append("%s (%s) %s" % (vid, desc[:60], ",".join(rules)))
     for vid, title, overlay in neutral_variants(root):
         res["neutral"] += 1
         try:
